@@ -195,8 +195,16 @@ fn ip_construct(ctx: &mut Ctx, rng: &mut Rng, fl: Flavour, seq: &Seq) -> Option<
         }
         3 => {
             let mut b = IpBlocksBuilder::new();
-            for (lo, hi) in &blocks {
-                b.push(lib_block(fl, *lo, *hi, rng.below(3)));
+            if rng.bool() {
+                // through the Extend implementation, in two portions
+                let items: Vec<IpBlock> = blocks.iter().map(|(lo, hi)| lib_block(fl, *lo, *hi, rng.below(3))).collect();
+                let cut = items.len() / 2;
+                b.extend(items[..cut].iter().copied());
+                b.extend(items[cut..].iter().copied());
+            } else {
+                for (lo, hi) in &blocks {
+                    b.push(lib_block(fl, *lo, *hi, rng.below(3)));
+                }
             }
             let s = ctx.no_panic(&format!("{}:builder", name), || detail("builder"), || b.finalize())?;
             ctx.sig(&format!("{} builder {}", name, seq.shape));
@@ -762,6 +770,43 @@ fn composite(ctx: &mut Ctx, rng: &mut Rng, v4s: &[IpCase], v6s: &[IpCase]) {
                 }
             }
         }
+    }
+    // conversion chains of the combined set: serde, text triple, clone
+    {
+        ctx.eval();
+        match serde_json::to_string(&r1).ok().and_then(|js| serde_json::from_str::<ResourceSet>(&js).ok().map(|b| (js, b))) {
+            Some((js, back)) => {
+                if back != r1 {
+                    ctx.violation("C03:set:resourceset-serde-roundtrip:differs", "ResourceSet does not survive its serde form", json!({"json": js}));
+                }
+            }
+            None => ctx.violation("C03:set:resourceset-serde-roundtrip:rejected", "the serde form of a ResourceSet is rejected", json!({"set": r1.to_string()})),
+        }
+        ctx.eval();
+        match ResourceSet::from_strs(&r1.asn().to_string(), &r1.ipv4().to_string(), &r1.ipv6().to_string()) {
+            Ok(back) => {
+                if back != r1 {
+                    ctx.violation("C03:set:resourceset-text-roundtrip:differs", "ResourceSet::from_strs of the three Display forms gives a different set", json!({"set": r1.to_string()}));
+                }
+            }
+            Err(e) => ctx.violation("C03:set:resourceset-text-roundtrip:rejected", "ResourceSet::from_strs rejects the Display forms of a set", json!({"set": r1.to_string(), "error": e.to_string()})),
+        }
+        let c = r1.clone();
+        check_bool(ctx, Flavour::As, "resourceset-clone-eq", c == r1 && r1 == c, true, d);
+        // AsResources / IpResources wrappers: Display/FromStr and serde
+        let ar = r1.to_as_resources();
+        ctx.eval();
+        let text = ar.to_string();
+        match rpki::repository::resources::AsResources::from_str(&text) {
+            Ok(back) if back == ar => {}
+            other => ctx.violation("C03:as:asresources-text-roundtrip", "AsResources Display does not parse back to an equal value", json!({"text": text, "error": other.err().map(|e| e.to_string())})),
+        }
+        ctx.eval();
+        match serde_json::to_string(&ar).ok().and_then(|js| serde_json::from_str::<rpki::repository::resources::AsResources>(&js).ok()) {
+            Some(back) if back == ar => {}
+            _ => ctx.violation("C03:as:asresources-serde-roundtrip", "AsResources does not survive its serde form", json!({"set": r1.to_string()})),
+        }
+        ctx.sig("resourceset conversion chains (serde, from_strs, clone, AsResources/IpResources)");
     }
     // RequestResourceLimit
     let mut limit = RequestResourceLimit::new();
